@@ -174,3 +174,13 @@ Proof.
   do 5 (destruct i as [|i]; [do 5 (destruct j as [|j]; [vm_compute; intro E; solve [reflexivity | discriminate E] |]); lia |]).
   lia.
 Qed.
+
+(* headline form: ANY n <= 33 pairwise distinct nodes and the exact inverse of
+   their Legendre matrix (given as a right inverse) *)
+Lemma igral_exact_poly_distinct n (xi : vec) (Vinv : mat) a b p :
+  (n <= NMAX)%nat -> distinct n xi -> right_inverse n Vinv (Vmat xi) -> (length p <= n)%nat ->
+  calc_igral a b (coeffs n Vinv (fun j => peval p (node_ab a b xi j))) = pint p a b.
+Proof.
+  intros Hn Hd R Hp. apply igral_exact_poly; [exact Hn | | exact Hp].
+  apply right_inverse_is_left; assumption.
+Qed.
